@@ -144,8 +144,13 @@ Section Fragments.
     fold_left (fun d frag => dict_append d (fst (frag_entry frag)) (snd (frag_entry frag))) chs [].
 End Fragments.
 
+(* _fragments over a given identifier dictionary (atoms = self._atom_identifiers is read once, before the loop).
+   The correspondence check feeds the identifiers observed on the implementation here (after comparing them with
+   atom_identifiers g), so that the 4-lane hash of every atom is not recomputed for every case. *)
+Definition fragments_with (idd : list (Z * Z)) (g : mol) (lo hi : Z) : list (list Z * list path) :=
+  fragments_of (ident idd) (bond_order g) (chains g lo hi).
 Definition fragments (g : mol) (lo hi : Z) : list (list Z * list path) :=
-  fragments_of (ident (atom_identifiers g)) (bond_order g) (chains g lo hi).
+  fragments_with (atom_identifiers g) g lo hi.
 
 (* ---------------------------------------------------------------------------------------------------- *)
 (* linear_hash_set:
@@ -184,6 +189,14 @@ Definition fold_bits (length nab : Z) (tpl : Z) : list Z :=
 Definition bit_list (length nab : Z) (hashes : list Z) : pyres (list Z) :=
   if length <=? 0 then Err ValueError else Ok (flat_map (fold_bits length nab) hashes).
 
+(* morgan_bit_set: log2(length) is evaluated before morgan_hash_set is called (whose asserts may fail) *)
+Definition bit_list_of (length nab : Z) (hs : pyres (list Z)) : pyres (list Z) :=
+  if length <=? 0 then Err ValueError
+  else match hs with
+       | Ok l => bit_list length nab l
+       | Err e => Err e
+       end.
+
 Definition linear_bit_list (h : list Z -> Z) (g : mol) (lo hi length nab nbp : Z) : pyres (list Z) :=
   bit_list length nab (linear_hash_list h g lo hi nbp).
 
@@ -213,12 +226,15 @@ Section Morgan.
     d :: match n with O => [] | S n' => morgan_iter g n' (morgan_step g d) end.
 
   (* asserts (AssertionError is reported as OtherError); out[-(max_radius - min_radius + 1):] *)
-  Definition morgan_hash_dict (g : mol) (lo hi : Z) : pyres (list (list (Z * Z))) :=
+  Definition morgan_hash_dict_with (idd : list (Z * Z)) (g : mol) (lo hi : Z) : pyres (list (list (Z * Z))) :=
     if lo <? 1 then Err OtherError
     else if hi <? lo then Err OtherError
     else
-      let out := morgan_iter g (Z.to_nat (hi - 1)) (atom_identifiers g) in
+      let out := morgan_iter g (Z.to_nat (hi - 1)) idd in
       Ok (skipn (length out - Z.to_nat (hi - lo + 1)) out).
+  (* identifiers = self._atom_identifiers is read after the two asserts *)
+  Definition morgan_hash_dict (g : mol) (lo hi : Z) : pyres (list (list (Z * Z))) :=
+    morgan_hash_dict_with (atom_identifiers g) g lo hi.
 
   (* {x for x in self._morgan_hash_dict(...) for x in x.values()} *)
   Definition morgan_hash_list (g : mol) (lo hi : Z) : pyres (list Z) :=
@@ -227,12 +243,23 @@ Section Morgan.
     | Err e => Err e
     end.
   Definition morgan_bit_list (g : mol) (lo hi length nab : Z) : pyres (list Z) :=
-    if length <=? 0 then Err ValueError        (* log2 is evaluated before morgan_hash_set *)
-    else match morgan_hash_list g lo hi with
-         | Ok hs => bit_list length nab hs
-         | Err e => Err e
-         end.
+    bit_list_of length nab (morgan_hash_list g lo hi).
 End Morgan.
+
+(* ---------------------------------------------------------------------------------------------------- *)
+(* A faster evaluation of Model.PyHash.hash_ztuple for vm_compute: `mod 2^64` as a bit mask instead of a division
+   (FingerprintProofs.hash_ztuple_fast_eq: equal on every argument).  The correspondence check instantiates the hash
+   parameter h of the model with it; nothing else uses it. *)
+Definition MASK64 : Z := 18446744073709551615.          (* 2^64 - 1 *)
+Definition m64 (x : Z) : Z := Z.land x MASK64.
+Definition rotl31_fast (x : Z) : Z := Z.lor (m64 (Z.shiftl x 31)) (Z.shiftr x 33).
+Definition tuple_round_fast (acc lane : Z) : Z :=
+  let acc1 := m64 (acc + m64 lane * XXPRIME_2) in m64 (rotl31_fast acc1 * XXPRIME_1).
+Definition tuple_hash_lanes_fast (lanes : list Z) : Z :=
+  let acc := fold_left tuple_round_fast lanes XXPRIME_5 in
+  let acc' := m64 (acc + Z.lxor (Z.of_nat (length lanes)) (Z.lxor XXPRIME_5 3527539)) in
+  if acc' =? M64 - 1 then 1546275796 else to_s64 acc'.
+Definition hash_ztuple_fast (l : list Z) : Z := tuple_hash_lanes_fast (map hash_int l).
 
 (* ---------------------------------------------------------------------------------------------------- *)
 (* Specification vocabulary (used by the theorems) *)
